@@ -40,7 +40,8 @@ ROOT = os.path.dirname(HERE)
 sys.path.insert(0, HERE)
 import handwritten as H  # noqa: E402   (strip(): blanks comments, string and char literals, keeps offsets)
 
-SCOPES = ["skrifa/src/outline/**/*.rs", "read-fonts/src/tables/postscript/**/*.rs"]
+SCOPES = ["skrifa/src/**/*.rs", "read-fonts/src/tables/postscript/**/*.rs", "incremental-font-transfer/src/**/*.rs"]
+SKIP = re.compile(r"/(bin|tests?|benches)/|/main\.rs$|_tests?\.rs$|/test_[^/]*\.rs$")
 TOKEN = re.compile(r"[A-Za-z_]\w*|\d[\w.]*|'\w+|\S")
 
 
@@ -180,6 +181,8 @@ def main():
     for pat in SCOPES:
         for p in sorted(glob.glob(os.path.join(a.repo, pat), recursive=True)):
             rel = os.path.relpath(p, a.repo)
+            if SKIP.search("/" + rel):
+                continue
             items += loops_of(rel, open(p).read())
     table = json.load(open(a.cover)) if os.path.exists(a.cover) else {}
     htext = harness_text()
